@@ -21,6 +21,40 @@ Proof.
   set (q := (n + 1) / 2) in *. clearbody q. lia.
 Qed.
 
+(** the quorum looks at which oracles attest, not at how many attestations there are *)
+Lemma key_matches_ext c p p' :
+  (forall k, attests p k = attests p' k) -> key_matches c p = key_matches c p'.
+Proof.
+  intros H. unfold key_matches. f_equal. f_equal.
+  apply filter_ext. exact H.
+Qed.
+
+Lemma attests_in p k : attests p k = true <-> In k (attesters p).
+Proof.
+  unfold attests. rewrite existsb_exists. split.
+  - intros [x [Hin He]]. apply N.eqb_eq in He. subst. exact Hin.
+  - intros Hin. exists k. split; [exact Hin | apply N.eqb_refl].
+Qed.
+
+(** ... so only the *set* of attesting keys matters: repeating an attestation, or reordering
+    them, changes nothing *)
+Lemma key_matches_set c p p' :
+  (forall k, In k (attesters p) <-> In k (attesters p')) -> key_matches c p = key_matches c p'.
+Proof.
+  intros H. apply key_matches_ext. intros k.
+  destruct (attests p k) eqn:E1, (attests p' k) eqn:E2; try reflexivity.
+  - apply attests_in in E1. apply H in E1. apply attests_in in E1. congruence.
+  - apply attests_in in E2. apply H in E2. apply attests_in in E2. congruence.
+Qed.
+
+Lemma filter_len_le {A} (f : A -> bool) l : (length (filter f l) <= length l)%nat.
+Proof. induction l as [|x l IH]; cbn [filter length]; [lia|]. destruct (f x); cbn [length]; lia. Qed.
+
+Lemma key_matches_le_trusted c p : key_matches c p <= N.of_nat (length (trusted c)).
+Proof.
+  unfold key_matches. pose proof (filter_len_le (attests p) (trusted c)). lia.
+Qed.
+
 Lemma proof_rule_sound c f p r :
   proof_rule c f p r = true ->
   f = 0 \/ warn c = true \/ (pok p r = true /\ half_attesting c p).
